@@ -1684,7 +1684,9 @@ class ContractionTree:
                     tree.info[node].pop(k, None)
 
         tree.already_optimized.clear()
-        tree.contraction_cores.clear()
+        # n.b. also reset any cached index orderings: those of parents which
+        # don't involve ``ind`` still depend on the order of updated children
+        tree.reset_contraction_indices()
 
         return tree
 
@@ -1729,9 +1731,10 @@ class ContractionTree:
                 tree._remove_node(p)
                 tree.contract_nodes_pair(l, r)
 
-        # reset caches
+        # reset caches, including cached index orderings: those of un-touched
+        # parents still depend on the order of the re-added children
         tree.already_optimized.clear()
-        tree.contraction_cores.clear()
+        tree.reset_contraction_indices()
 
         return tree
 
